@@ -6,6 +6,8 @@ rows=[]
 for res in sorted(glob.glob('/verif/work/seedres/*.txt')):
     name=os.path.basename(res)[:-4]; pid,k=name.split('-')
     src='/tmp/seed-%s'%pid
+    if pid.endswith('r2'):
+        pid=pid[:-2]; src='/tmp/seed2-%s'%pid
     kv={}
     for l in open(res):
         if '=' in l:
@@ -27,8 +29,13 @@ for res in sorted(glob.glob('/verif/work/seedres/*.txt')):
         if os.path.exists(dst+'/meta.json'):
             old=json.load(open(dst+'/meta.json'))
         oc=old.get('checks_run',{})
+        hist=old.get('history',[])
         for c,(e,keys) in checks.items():
-            oc[c]={'exit':int(e) if e.isdigit() else e,'violation_keys':[x for x in keys.split(';') if x]}
+            new={'exit':int(e) if e.isdigit() else e,'violation_keys':[x for x in keys.split(';') if x]}
+            if c in oc and oc[c]['exit']!=new['exit']:
+                hist.append({'check':c,'earlier_result':oc[c],'note':'result before the check was strengthened (or before a base fix landed); superseded by checks_run'})
+            oc[c]=new
+        old['history']=hist
         m={'property':pid,'breaks':meta.get('what_it_breaks',''),'title':meta.get('title',''),
            'needs_to_manifest':meta.get('needs_to_manifest',''),'files':meta.get('files',[]),
            'confirmed':{'applies_to_repo_head':kv.get('applies'),'builds':kv.get('builds'),'baseline_suite_unexpected_failures':kv.get('suite_unexpected_failures'),
